@@ -136,7 +136,7 @@ fn read_call(r: &RLN, call: &str, arg: &Value, msgs: &[Vec<u8>]) -> Value {
             "verify" => json!(r.verify(Cursor::new(msgs[arg.as_u64().unwrap() as usize][..288].to_vec()))?),
             "verify_roots" => json!(r.verify_with_roots(Cursor::new(msgs[arg.as_u64().unwrap() as usize].clone()), Cursor::new(vec![]))?),
             "hash" => { rln::public::hash(Cursor::new(bytes_of(arg)), &mut o)?; json!(o) }
-            "poseidon" => { rln::public::poseidon_hash(Cursor::new(bytes_of(arg)), &mut o)?; json!(o) }
+            "poseidon" | "poseidon_bad" => { rln::public::poseidon_hash(Cursor::new(bytes_of(arg)), &mut o)?; json!(o) }
             "seeded_key_gen" => { r.seeded_key_gen(Cursor::new(bytes_of(arg)), &mut o)?; json!(o) }
             "seeded_ext_key_gen" => { r.seeded_extended_key_gen(Cursor::new(bytes_of(arg)), &mut o)?; json!(o) }
             "recover" => { r.recover_id_secret(Cursor::new(msgs[0].clone()), Cursor::new(msgs[1].clone()), &mut o)?; json!(o) }
@@ -209,6 +209,9 @@ pub fn shared(seed: u64, nthreads: usize, ncalls: usize, out: &mut Vec<Value>) {
         // membership paths of many positions (asked for over and over by all threads in the last phase)
         ("get_proof".into(), json!(6)), ("get_proof".into(), json!(100)), ("get_proof".into(), json!(101)), ("get_proof".into(), json!(102)),
         ("get_proof".into(), json!(139)), ("get_proof".into(), json!((1 << 19) + 9)),
+        // LAST: a call that fails by itself (nine inputs: no Poseidon parameters) - it fails the same way from any thread,
+        // and must not change what the other callers get
+        ("poseidon_bad".into(), json!(enc_vec_fr(&[Fr::from(3u64); 9]))),
     ];
     let proof_shapes: Vec<usize> = calls.iter().enumerate().filter(|(_, c)| c.0 == "get_proof").map(|(i, _)| i).collect();
     let verify_shapes: Vec<usize> = calls.iter().enumerate().filter(|(_, c)| c.0.starts_with("verify")).map(|(i, _)| i).collect();
@@ -226,7 +229,17 @@ pub fn shared(seed: u64, nthreads: usize, ncalls: usize, out: &mut Vec<Value>) {
     // initialised under contention); then the mixed calls; then a storm of membership-path queries.
     let rounds = if ncalls >= 200 { 6 } else { 3 };
     for round in 0..rounds {
-        let r = Arc::new(frozen_tree(&secrets, &idxs, lim, &fill));
+        // (a crash of the code under test while the next instance is built is data, not a harness failure)
+        let r = match catch(AssertUnwindSafe(|| frozen_tree(&secrets, &idxs, lim, &fill))) {
+            Ok(r) => Arc::new(r),
+            Err(m) => {
+                for t in 0..nthreads {
+                    out.push(json!({"t": "thread", "thr": t, "round": round, "finished": false,
+                                    "msg": format!("no instance for this round: {}", m.chars().take(120).collect::<String>())}));
+                }
+                continue;
+            }
+        };
         let barrier = Arc::new(Barrier::new(nthreads));
         let (tx, rx) = std::sync::mpsc::channel::<(usize, Vec<Value>)>();
         for t in 0..nthreads {
